@@ -3,6 +3,7 @@ package tubes
 import (
 	"encoding/binary"
 	"io"
+	"math"
 	"net"
 	"sync"
 	"sync/atomic"
@@ -546,6 +547,10 @@ func (r *Reliable) Write(b []byte) (n int, err error) {
 func (r *Reliable) WriteMsgUDP(b, oob []byte, addr *net.UDPAddr) (n, oobn int, err error) {
 	// This function can skip checking r.tubeState because r.Write() will do that
 	length := len(b)
+	// The message is framed with a two-byte length, which uint16(length) would wrap.
+	if length > math.MaxUint16 {
+		return 0, 0, errMsgTooLong
+	}
 	h := make([]byte, 2)
 	binary.BigEndian.PutUint16(h, uint16(length))
 	_, e := r.Write(append(h, b...))
